@@ -23,6 +23,7 @@ import (
 	"io"
 	"os"
 	"regexp"
+	"slices"
 	"strconv"
 	"strings"
 	"time"
@@ -149,7 +150,11 @@ func parseLogsInJsonFormat(logs []string, metrics []string) (*v1beta1.Observatio
 			}
 		}
 
-		for _, m := range metrics {
+		for i, m := range metrics {
+			// a metric name listed twice is still one tracked metric (the TEXT parser reports it once, too)
+			if slices.Contains(metrics[:i], m) {
+				continue
+			}
 			value, exist := jsonObj[m].(string)
 			if !exist {
 				continue
